@@ -1,6 +1,7 @@
 SPECIFICATION Spec
 CONSTANT FileIds = {"root.jst", "a.jst", "b.jst"}
 CONSTANT MaxRoot = 3
+CONSTANT Variant = "graphs"
 CONSTANT MaxOther = 2
 INVARIANT StackBounded
 INVARIANT OpenedInside
